@@ -397,6 +397,24 @@ def _channel_wiring(res: Result, fi: FuncInfo, obj_names: Set[str], label: str) 
             t = n.targets[0]
             if isinstance(t, ast.Attribute) and (dotted(t.value) or "") in obj_names:
                 v_ = n.value
+                # value = d.get("k"); if value: X = value  -  the same decision by truthiness, spelt with a local (or a walrus)
+                if isinstance(v_, ast.Name):
+                    from ..util import _block_binding, nesting_atoms
+                    bound = _block_binding(fi.node, n, v_.id)
+                    if bound is not None and any(isinstance(a_, ast.Name) and a_.id == v_.id and t_ for a_, t_ in nesting_atoms(fi.node, n)):
+                        pk0 = bound
+                        if isinstance(pk0, ast.Call) and call_name(pk0) == "get" and pk0.args and const_str(pk0.args[0]) is not None:
+                            pk0 = ast.Subscript(value=pk0.func.value, slice=pk0.args[0], ctx=ast.Load())
+                        pk0s = _dict_reads(pk0)
+                        if pk0s and pk0s[-1] in KINDS + RUNSPECS:
+                            n_inst += 1
+                            res.check("WIRING", "%s: %s.%s takes the setting whatever its value" % (label, src(t.value), t.attr), False, fi.loc(n), fi.qual, norm_stmt(n)[:110],
+                                      "the %s channel stores the setting '%s' only when it is truthy (`%s = %s; if %s: ...`): a value of 0 given for it is "
+                                      "ignored and the previous value stays in force" % (label, pk0s[-1], v_.id, src(bound)[:50], v_.id),
+                                      key="WIRING/%s/%s-falsy-setting-ignored" % (fi.qual, t.attr))
+                            continue
+                    if bound is not None:
+                        v_ = bound
                 # X = d.get("k") or <current> / X = d["k"] if d["k"] else <current>: the setting is taken only when it is *truthy* - a start
                 # time, stop time or constant of 0 given in the settings is silently replaced by the fallback
                 probe = None
@@ -463,6 +481,76 @@ def _channel_wiring(res: Result, fi: FuncInfo, obj_names: Set[str], label: str) 
     return n_inst
 
 
+def parsed_cache_rule(idx: Index, res: Result, rule: str) -> int:
+    """A table in which the scenario-manager factory keeps *parsed scenario files* (what create_model() answered) hands out deep
+    copies only.  The readers merge base constants / base points into the nested scenario dictionaries in place
+    (ScenarioManagerSd.load_scenarios): an entry that is handed out as it is, or through dict(...) / .copy() (one level deep), takes
+    those merges back into the table - the next read of an unchanged file carries the previous load's base values as if they were the
+    scenario's own settings.  Returns the number of such tables (0 on the pinned tree: every read parses the file again)."""
+    FACT = "BPTK_Py/scenariomanager/scenario_manager_factory.py"
+    ci = idx.cls(FACT, "ScenarioManagerFactory")
+    tables: Dict[str, Tuple[FuncInfo, ast.AST, str]] = {}
+    for name, defs in ci.methods.items():
+        fi = defs[-1]
+        parsed = set()
+        for a in walk_no_nested(fi.node):
+            if isinstance(a, ast.Assign) and any(call_name(c) == "create_model" for c in iter_calls(a.value)):
+                for t in a.targets:
+                    parsed |= {x.id for x in ast.walk(t) if isinstance(x, ast.Name)}
+        for a in walk_no_nested(fi.node):
+            if isinstance(a, ast.Assign) and isinstance(a.targets[0], ast.Subscript) and (dotted(a.targets[0].value) or "").startswith("self."):
+                # the parsed object itself, or a tuple / list it is put into (next to a signature) - not an object built from it
+                direct = [a.value] + (list(a.value.elts) if isinstance(a.value, (ast.Tuple, ast.List)) else [])
+                kept = [x.id for x in direct if isinstance(x, ast.Name) and x.id in parsed]
+                if kept and not any(isinstance(c, ast.Call) and call_name(c) == "deepcopy" for c in ast.walk(a.value)):
+                    tables[dotted(a.targets[0].value)] = (fi, a, kept[0])
+    def escapes(fn_node, name, skip_stmt=None):
+        """loads of *name* that hand the object (or part of it) on: not the store into the table, not a test, not under deepcopy"""
+        out = []
+        par = {}
+        for p_ in ast.walk(fn_node):
+            for c_ in ast.iter_child_nodes(p_):
+                par[id(c_)] = p_
+        for st in walk_no_nested(fn_node):
+            if not isinstance(st, ast.stmt) or st is skip_stmt or isinstance(st, (ast.If, ast.For, ast.While, ast.With, ast.Try, ast.FunctionDef)):
+                continue
+            for nm in [x for x in ast.walk(st) if isinstance(x, ast.Name) and x.id == name and isinstance(x.ctx, ast.Load)]:
+                up = par.get(id(nm))
+                top = nm
+                while up is not None and up is not st and isinstance(up, (ast.Subscript, ast.Attribute)):
+                    top, up = up, par.get(id(up))
+                if isinstance(up, ast.Compare) or (isinstance(up, ast.Call) and call_name(up) in ("len", "isinstance", "type")):
+                    continue
+                if _under_deepcopy(st, nm):
+                    continue
+                out.append(st)
+        return out
+    for attr, (fi, store, kept) in sorted(tables.items()):
+        bad = []
+        bad += [(fi, st) for st in escapes(fi.node, kept, store) if seq(st) > seq(store)]
+        for name, defs in ci.methods.items():
+            g = defs[-1]
+            for a in walk_no_nested(g.node):
+                if isinstance(a, ast.Assign) and isinstance(a.targets[0], ast.Name) and any(
+                        (isinstance(x, ast.Call) and call_name(x) == "get" and isinstance(x.func, ast.Attribute) and dotted(x.func.value) == attr) or
+                        (isinstance(x, ast.Subscript) and isinstance(x.ctx, ast.Load) and dotted(x.value) == attr) for x in ast.walk(a.value)):
+                    bad += [(g, st) for st in escapes(g.node, a.targets[0].id, a)]
+        res.check(rule, "entries of %s leave the factory as deep copies" % attr, not bad, bad[0][0].loc(bad[0][1]) if bad else fi.loc(store), (bad[0][0] if bad else fi).qual,
+                  norm_stmt(bad[0][1])[:90] if bad else norm_stmt(store)[:90],
+                  "%s keeps parsed scenario files and hands an entry out %s: load_scenarios merges base constants and base points into the nested "
+                  "scenario dictionaries in place, so the table takes them back and the next read of an unchanged file treats the previous load's "
+                  "base values as the scenario's own settings" % (attr, "through `%s`" % norm_stmt(bad[0][1])[:60] if bad else ""),
+                  key="%s/ScenarioManagerFactory/%s-entries-shared" % (rule, attr.replace("self.", "")))
+    return len(tables)
+
+
+def _under_deepcopy(root: ast.AST, target: ast.AST) -> bool:
+    for c in ast.walk(root):
+        if isinstance(c, ast.Call) and call_name(c) == "deepcopy" and any(x is target for x in ast.walk(c)):
+            return True
+    return False
+
+
 def check_c07(idx: Index, tier: str, res: Result) -> None:
     res.explanation = ("Def-use agreement for every (setting kind x delivery channel): each channel reads a key and stores it into the "
                        "same-named scenario field; both runners (siblings) apply constants, points and run specs to the simulation with "
@@ -516,8 +604,11 @@ def check_c07(idx: Index, tier: str, res: Result) -> None:
     closure_rule(idx, res, "APPLY", [(RUNNER, "SdRunner._run_scenarios"), (RUNNER, "SdRunner.run_scenario_step"),
                                      (SCEN, "SimulationScenario.configure_settings"), (SERVER, "BptkServer._run_resource")])
     # settings take effect on every value reported afterwards: the caches the settings paths reset are emptied completely and unconditionally
-    from .memo import clear_rules
+    res.ob("FRESH", "tables of parsed scenario files kept by the factory: %d" % parsed_cache_rule(idx, res, "FRESH"), True, nontrivial=False)
+    from .memo import clear_rules, run_resource_reset_rule
     clear_rules(idx, res)
+    # a setting sent with POST /run (run specs included) takes effect on the values reported next: the cache is reset before it is applied
+    run_resource_reset_rule(idx, res, "FRESH")
     # the settings applied to one scenario are those given for it: nothing is carried over from the scenario handled before it
     stale_rule(idx, res, ("BPTK_Py/scenariorunners/", "BPTK_Py/scenariomanager/", "BPTK_Py/bptk.py"))
 
